@@ -164,7 +164,10 @@ class MinPathCover(pathmodel.AbstractPathModelDAG):
 
         self.solve_time_start = time.perf_counter()
         
-        for i in range(self.get_lowerbound_k(), self.G.number_of_edges()):
+        # With constraints more routes than edges can be needed: every constraint may require a route of its own
+        # (on top of the at most |E| routes an unconstrained solution needs)
+        max_k = self.G.number_of_edges() + len(self.subpath_constraints or [])
+        for i in range(self.get_lowerbound_k(), max_k + 1):
             utils.logger.info(f"{__name__}: iteration with k = {i}")
 
             i_solver_options = copy.deepcopy(self.solver_options)
